@@ -12,11 +12,31 @@ let u64_of_n = function N0 -> 0L | Npos p -> u64_of_pos p
 let string_of_bytes (l : n list) = let b = Buffer.create 32 in List.iter (fun x -> Buffer.add_char b (Char.chr (int_of_n x))) l; Buffer.contents b
 let bytes_of_string (s : string) : n list = List.init (String.length s) (fun i -> byte_tab.(Char.code s.[i]))
 
+(* hyp_violated: the platform conversion accepted a text outside strtod_dec, or rejected a text of strtod_dec whose
+   value is finite (the Section hypothesis strtod_law of NumGrammar.v does not hold for this instantiation) *)
+let hyp_violated = ref false
+(* optional minus, then 0 or a non-zero digit followed by digits, at most 15 digits: an integer lexeme below 2^53 *)
+let is_small_int_text (s : string) =
+  let n = String.length s in
+  let i = if n > 0 && s.[0] = '-' then 1 else 0 in
+  let d = n - i in
+  d >= 1 && d <= 15 && (d = 1 || s.[i] <> '0') &&
+  (let ok = ref true in for j = i to n - 1 do if s.[j] < '0' || s.[j] > '9' then ok := false done; !ok)
 let to_double (x : n list) : n option =
-  match float_of_string_opt (string_of_bytes x) with
-  | Some f when Float.is_finite f -> Some (n_of_u64 (Int64.bits_of_float f))
-  | _ -> None
-let print16 (b : n) : n list = bytes_of_string (Printf.sprintf "%.16g" (Int64.float_of_bits (u64_of_n b)))
+  let syn = strtod_dec x in
+  let s = string_of_bytes x in
+  let r = (match float_of_string_opt s with
+    | Some f when Float.is_finite f -> if not syn then hyp_violated := true; Some (n_of_u64 (Int64.bits_of_float f))
+    | Some _ -> None
+    | None -> if syn then hyp_violated := true; None) in
+  (* strtod_int_law of IntRound.v: on integer lexemes below 2^53 strtod is the concrete to_double_int *)
+  if is_small_int_text s && r <> Some (to_double_int x) then hyp_violated := true;
+  r
+let print16 (b : n) : n list =
+  let r = bytes_of_string (Printf.sprintf "%.16g" (Int64.float_of_bits (u64_of_n b))) in
+  (* print_int_law of IntRound.v: on small integers the printer is the concrete print16_int *)
+  if small_int b && print16_int b <> Some r then hyp_violated := true;
+  r
 let to_float (b : n) : n =
   n_of_u64 (Int64.logand (Int64.of_int32 (Int32.bits_of_float (Int64.float_of_bits (u64_of_n b)))) 0xFFFFFFFFL)
 
@@ -80,15 +100,17 @@ let build (s : string) : jv =
 let sentinel = JObj [ (bytes_of_string "k", JArr [JNum (n_of_u64 0x3ff8000000000000L); JStr (bytes_of_string "x")]);
                       (bytes_of_string "z", JNull) ]
 
-(* operator== of the library: numbers compare as doubles *)
-let rec jeq a b = match a, b with
+(* operator== of the library: the model's jv_eqb (ValueApi.v; numbers by IEEE equality on the bit patterns), cross-checked
+   against the platform's float equality *)
+let rec jeq_platform a b = match a, b with
   | JNum x, JNum y -> Int64.float_of_bits (u64_of_n x) = Int64.float_of_bits (u64_of_n y)
-  | JArr l, JArr m -> List.length l = List.length m && List.for_all2 jeq l m
-  | JObj l, JObj m -> List.length l = List.length m && List.for_all2 (fun (k, x) (k', y) -> k = k' && jeq x y) l m
+  | JArr l, JArr m -> List.length l = List.length m && List.for_all2 jeq_platform l m
+  | JObj l, JObj m -> List.length l = List.length m && List.for_all2 (fun (k, x) (k', y) -> k = k' && jeq_platform x y) l m
   | JUndef, JUndef | JNull, JNull -> true
   | JBool x, JBool y -> x = y
   | JStr x, JStr y -> x = y
   | _, _ -> false
+let jeq a b = let r = jv_eqb a b in if r <> jeq_platform a b then hyp_violated := true; r
 
 let reload text refd =
   match parse to_double true text with
@@ -110,7 +132,10 @@ let () = main_loop (function
   | "p" :: full :: h :: _ ->
       let doc = bytes_of_hex h in
       let f = (full = "1") in
-      (match parse to_double f doc with
+      hyp_violated := false;
+      let res = parse to_double f doc in
+      if !hyp_violated then "p MODEL-HYPOTHESIS-strtod_law-VIOLATED" else
+      (match res with
        | POk (v, rest) ->
            let (ok, t) = load to_double sentinel f doc in
            if not ok || dumps t <> dumps v then "p MODEL-LOAD-INCONSISTENT" else
@@ -121,7 +146,8 @@ let () = main_loop (function
        | PFuel -> "p MODEL-OUT-OF-FUEL")
   | [("w" | "wd") as op; tr] ->
       let both = (op = "w") in
-      (match (try Some (build tr) with _ -> None) with
+      hyp_violated := false;
+      let ans = (match (try Some (build tr) with _ -> None) with
        | None -> op ^ " BAD-TREE"
        | Some v ->
          match save print16 false v, (if both then save print16 true v else Some []) with
@@ -137,7 +163,8 @@ let () = main_loop (function
                    let b = if both then (match save print16 true v1 with Some t -> fst (reload t ref1) | None -> "T") else a in
                    (if a = b then a else "LAYOUTS-DIFFER"), (if jeq v1 v then "1" else "0")) in
              Printf.sprintf "%s C=%s R=%s loc=1 rc=%s rr=%s r2=%s eq=%s" op (hex_of_bytes c) (if both then hex_of_bytes r else "-") rc rr r2 eq
-         | _, _ -> op ^ " throw")
+         | _, _ -> op ^ " throw") in
+      if !hyp_violated then op ^ " MODEL-HYPOTHESIS-VIOLATED (strtod_law / print_int_law / strtod_int_law)" else ans
   | ["g"; h] ->
       let b = n_of_u64 (Int64.of_string ("0x" ^ h)) in
       let ints = List.map (fun (nm, sg, w) ->
